@@ -174,13 +174,16 @@ struct Frame {
 pub struct Mem {
     /// `V::Void` = uninitialised
     pub cells: Vec<V>,
+    /// the name each cell was declared under (diagnostics: which variable was read uninitialised)
+    pub names: Vec<String>,
     /// file-scope constants: name → (cell, type)
     consts: HashMap<String, (usize, MT)>,
 }
 
 impl Mem {
-    fn alloc(&mut self, v: V) -> usize {
+    fn alloc(&mut self, v: V, name: &str) -> usize {
         self.cells.push(v);
+        self.names.push(name.to_string());
         self.cells.len() - 1
     }
 }
@@ -315,7 +318,7 @@ impl<'a> MslEval<'a> {
 
     fn read_cell(&self, c: usize, mem: &Mem, what: &str) -> Option<V> {
         match mem.cells[c] {
-            V::Void => stuck(Stuck::Uninit, format!("read of uninitialised {}", what)),
+            V::Void => stuck(Stuck::Uninit, format!("read of uninitialised variable declared as `{}` (through {})", mem.names[c], what)),
             v => Some(v),
         }
     }
@@ -727,13 +730,13 @@ impl<'a> MslEval<'a> {
         let mut decls = Vec::new();
         collect_decls(&f.args()[3], &mut decls);
         for (n, t) in decls {
-            let c = mem.alloc(V::Void);
+            let c = mem.alloc(V::Void, &n);
             fr.vars.insert(n, (c, t));
         }
         for b in bound {
             match b {
                 Bound::Val(n, t, v) => {
-                    let c = mem.alloc(v);
+                    let c = mem.alloc(v, &n);
                     fr.vars.insert(n, (c, t));
                 }
                 Bound::Ref(n, t, c) => {
@@ -750,7 +753,7 @@ impl<'a> MslEval<'a> {
 
     /// the file-scope constants with their initial values
     pub fn init_mem(&self) -> Option<Mem> {
-        let mut mem = Mem { cells: Vec::new(), consts: HashMap::new() };
+        let mut mem = Mem { cells: Vec::new(), names: Vec::new(), consts: HashMap::new() };
         for g in &self.consts {
             let n = g.args()[0].atom().to_string();
             let t = mt_of_name(g.args()[1].atom())?;
@@ -760,7 +763,7 @@ impl<'a> MslEval<'a> {
             } else {
                 V::Void
             };
-            let c = mem.alloc(v);
+            let c = mem.alloc(v, &n);
             mem.consts.insert(n, (c, t));
         }
         Some(mem)
@@ -775,7 +778,7 @@ impl<'a> MslEval<'a> {
         // the statics live where the entry point would declare them
         let mut gcells: Vec<(String, usize)> = Vec::new();
         for (n, v) in globals {
-            let c = mem.alloc(*v);
+            let c = mem.alloc(*v, n);
             gcells.push((n.clone(), c));
         }
         // callers use the overload without the tag parameter
@@ -802,7 +805,7 @@ impl<'a> MslEval<'a> {
                         user_cells.push(None);
                     }
                     ("ref", TopArg::Var(v)) => {
-                        let c = mem.alloc(v);
+                        let c = mem.alloc(v, "<caller variable>");
                         bound.push(Bound::Ref(p.args()[2].atom().to_string(), mt_of_name(p.args()[1].atom())?, c));
                         user_cells.push(Some(c));
                     }
